@@ -674,7 +674,7 @@ func getReferenceModificationsFromSet(dbModel *model.DatabaseModel, table, uuid,
 	}
 
 	// get the referenced table
-	refTable := refTable(dbModel, table, column, false)
+	extendedType, _, _, refTable := refInfo(dbModel, table, column, false)
 	if refTable == "" {
 		return nil
 	}
@@ -686,6 +686,15 @@ func getReferenceModificationsFromSet(dbModel *model.DatabaseModel, table, uuid,
 		switch to := v.(type) {
 		case ovsdb.UUID:
 			refs[spec][to.GoUUID] = append(refs[spec][to.GoUUID], from)
+		}
+	}
+	if extendedType == ovsdb.TypeUUID && len(modify.GoSet) > 0 {
+		// an optional value is replaced, not toggled: the value it had
+		// before is no longer referenced
+		for _, v := range old.GoSet {
+			if to, ok := v.(ovsdb.UUID); ok && refs[spec][to.GoUUID] == nil {
+				refs[spec][to.GoUUID] = []string{from}
+			}
 		}
 	}
 	return refs
